@@ -242,12 +242,17 @@ class Ranges:
             return self
         it = range(min(r['n1'] for r in rng), max(r['n2'] for r in rng) + 1)
         it = ['{0}:{0}'.format(_index2col(c)) for c in it]
-        spl = (self & Ranges().pushes(it))._merge()
+        cols = Ranges()
+        for sheet_id in sorted(set(r['sheet_id'] for r in rng)):
+            cols.pushes(it, context={'sheet_id': sheet_id})
+        spl = (self & cols)._merge()
         return spl
 
     def _merge(self):
         # noinspection PyPep8
-        key = lambda x: (x['n1'], int(x['r1']), -x['n2'], -int(x['r2']))
+        key = lambda x: (
+            x['sheet_id'], x['n1'], int(x['r1']), -x['n2'], -int(x['r2'])
+        )
         rng = self.ranges
         for merge, select in ((_merge_raw_update, 1), (_merge_col_update, 0)):
             it, rng = sorted(rng, key=key), []
